@@ -259,6 +259,8 @@ class LocalShare:
         # Quick check: was somebody faster?
         sharedPath = self.__buildPath(buildId)
         if os.path.isdir(sharedPath):
+            # The caller will use the existing package. Record it as user.
+            self.useSharedPackage(workspace, buildId)
             return sharedPath, False
 
         # Prepare everyting in temporary directory next to the shared packages
@@ -306,6 +308,7 @@ class LocalShare:
                     os.rename(tmpSharedPath, sharedPath)
                 except OSError as e:
                     if e.errno in (errno.ENOTEMPTY, errno.EEXIST):
+                        self.useSharedPackage(workspace, buildId)
                         return sharedPath, False
                     raise
 
